@@ -12,16 +12,16 @@ EXTENDS Integers, Sequences, FiniteSets, TLC, Json, IOUtils, JobQueueProps
 Trace == ndJsonDeserialize(IOEnv.VERIF_TRACE)
 N == Len(Trace)
 
-VARIABLES l, pass, viol
-vars == <<l, pass, viol>>
+VARIABLES l, pass, seen, jpass, viol
+vars == <<l, pass, seen, jpass, viol>>
 
 NoPass == [t0 |-> -1, view |-> <<>>]
 MaxCOf(s) == [c \in 1..2 |-> IF ToString(c) \in DOMAIN s.maxc THEN s.maxc[ToString(c)] ELSE 1]
 
-\* timers still armed at a quiet point must belong to Jobs that are not yet due
+\* an armed deferred re-sync whose deadline may have passed is pending work: quiet only if no queued Job of that JobConfig is due
 TimersNotDue(s) ==
     /\ \A c \in DOMAIN s.timer : s.timer[c] =>
-          \E j \in DOMAIN s.api : Queued(s.api[j]) /\ ToString(s.api[j].jc) = c /\ s.api[j].sa > s.now
+          \A j \in DOMAIN s.api : (Queued(s.api[j]) /\ ToString(s.api[j].jc) = c) => s.api[j].sa > s.now
     /\ \A i \in 1..Len(s.itimer) :
           LET j == ToString(s.itimer[i]) IN s.api[j].sa > s.now \/ ~Queued(s.api[j])
 Quiet(s) == s.quiet /\ TimersNotDue(s)
@@ -30,6 +30,15 @@ Quiet(s) == s.quiet /\ TimersNotDue(s)
 Stuck(e) == e.ev = "DrainFailed"
 
 Fail(name, ok) == IF ok THEN {} ELSE {name}
+SetOfIds(seq) == {ToString(seq[i]) : i \in 1..Len(seq)}
+
+\* ---- C15 ghosts: the latest schedule / start time of the Jobs that a *successful* jobconfigcontroller pass had in its cache
+SetOf(seq) == {ToString(seq[i]) : i \in 1..Len(seq)}
+MaxOf(S) == IF S = {} THEN 0 ELSE CHOOSE m \in S : \A x \in S : x <= m
+NoSeen == [c \in {"1", "2"} |-> [sch |-> 0, exe |-> 0]]
+SeenIn(cache, c) == [sch |-> MaxOf({cache[j].sch : j \in {k \in DOMAIN cache : cache[k].ex /\ ToString(cache[k].jc) = c}} \cup {0}),
+                     exe |-> MaxOf({cache[j].st : j \in {k \in DOMAIN cache : cache[k].ex /\ ToString(cache[k].jc) = c /\ cache[k].st # None}} \cup {0})]
+Merge(a, b) == [sch |-> MaxOf({a.sch, b.sch}), exe |-> MaxOf({a.exe, b.exe})]
 
 \* formulas over one logged state
 StateFails(e) ==
@@ -41,7 +50,12 @@ StateFails(e) ==
     \cup Fail("C06_NoStuck", (Quiet(s) \/ Stuck(e)) => C06_NoStuck(s.api, s.now, mc))
     \cup Fail("C07_IndependentStarts", (Quiet(s) \/ Stuck(e)) => C07_IndependentStarts(s.api, s.now))
     \cup Fail("C20_Converges", ~Stuck(e))
+    \cup Fail("C15_Exact", (s.jcsync /\ Quiet(s)) => \A c \in DOMAIN s.jcapi : C15_Exact(s.api, CHOOSE n \in 1..2 : ToString(n) = c, s.jcapi[c], SetOfIds))
     \cup Fail("S_CounterNonNeg", \A c \in DOMAIN s.counter : s.counter[c] >= 0)
+
+\* C15: covers what successful passes saw (evaluated at quiet points with the ghost)
+CoverFails(s, sn) ==
+    Fail("C15_Covers", (s.jcsync /\ Quiet(s)) => \A c \in DOMAIN s.jcapi : s.jcapi[c].lastSch >= sn[c].sch /\ s.jcapi[c].lastExe >= sn[c].exe)
 
 \* formulas over one logged step
 StepFails(p, s, ps) ==
@@ -49,8 +63,10 @@ StepFails(p, s, ps) ==
     \cup Fail("C06_Fifo", ps.t0 >= 0 => C06_FifoStep(p.api, s.api, ps))
     \cup Fail("C07_NotEarlyStep", C07_NotEarlyStep(p.api, s.api, s.now))
     \cup Fail("C11_StartTimeStable", C11_StartTimeStable(p.api, s.api))
+    \cup Fail("C07_RefusedOnlyWhenDue", C07_RefusedOnlyWhenDueStep(p.api, s.api, s.now))
+    \cup Fail("C15_Monotone", \A c \in DOMAIN s.jcapi : c \in DOMAIN p.jcapi => C15_MonotoneStep(p.jcapi[c], s.jcapi[c]))
 
-Init == l = 1 /\ pass = NoPass /\ viol = {}
+Init == l = 1 /\ pass = NoPass /\ seen = NoSeen /\ jpass = [c |-> "", v |-> [sch |-> 0, exe |-> 0]] /\ viol = {}
 
 Next ==
     /\ l <= N
@@ -61,8 +77,14 @@ Next ==
            ps == IF reset THEN NoPass
                  ELSE IF e.ev = "SyncBegin" THEN [t0 |-> Trace[l - 1].st.now, view |-> Trace[l - 1].st.cache]
                  ELSE pass
-           fs == StateFails(e) \cup (IF reset \/ l = 1 THEN {} ELSE StepFails(Trace[l - 1].st, s, ps))
-       IN /\ pass' = ps
+           \* jobconfigcontroller pass: remember what it saw; credit it when the pass ends successfully
+           jp == IF e.ev = "JSyncBegin" THEN [c |-> ToString(e.l.c), v |-> SeenIn(Trace[l - 1].st.cache, ToString(e.l.c))] ELSE jpass
+           credit == \/ (e.ev = "JSyncBegin" /\ ~s.jsync.busy)
+                     \/ (e.ev = "JStepWrite" /\ e.err = "")
+           sn == IF reset THEN NoSeen
+                 ELSE IF credit THEN [seen EXCEPT ![jp.c] = Merge(@, jp.v)] ELSE seen
+           fs == StateFails(e) \cup CoverFails(s, sn) \cup (IF reset \/ l = 1 THEN {} ELSE StepFails(Trace[l - 1].st, s, ps))
+       IN /\ pass' = ps /\ seen' = sn /\ jpass' = jp
           /\ viol' = viol \cup {[f |-> f, line |-> l, run |-> e.run, ev |-> e.ev, faulted |-> e.faulted] : f \in fs}
 Spec == Init /\ [][Next]_vars
 
